@@ -161,8 +161,9 @@ def run_ladder(case):
     events = []
     cnt = {"hook_reads": 0, "ladders": 0, "quadrature_not_converged": 0}
     key = "C04/%s/%s" % (case["wt"], case["kind"])
-    dts = [0.02, 0.01, 0.005]
+    dts = [0.02, 0.01, 0.005, 0.0025]
     resid = []
+    rvecs = []
     wu = wd = phi = None
     sample = {}
     for dt in dts:
@@ -198,16 +199,14 @@ def run_ladder(case):
             events.append(ev("quadrature/not-converged", None, key="C04/quadrature-not-converged", qerr=float(qerr), dt=dt))
             return {"events": events, "nontrivial": False, "counters": cnt}
         resid.append(float(r))
+        rvecs.append((vals[1] - rhs) / nr)
     cnt["ladders"] = 1
     sample = {"kind": case["kind"], "walkers": case["wt"], "residuals": resid, "dts": dts, "nodes": [n_lo ** nf, n_hi ** nf]}
-    events.append(judge("average/residual-at-smallest-dt", resid[2], 1e-3, key + "/residual-small"))
-    ratios = []
-    for a, b in zip(resid[:-1], resid[1:]):
-        if a > 1e-9 and b > 1e-12:
-            ratios.append(a / b)
-    if ratios:
-        events.append(ev("average/residual-ratio-on-halving-dt", bool(min(ratios) >= 3.0), float(3.0 / min(ratios)), 1.0, key + "/order",
-                         ratios=ratios, residuals=resid))
+    events.append(judge("average/residual-at-smallest-dt", resid[-1], 1e-3, key + "/residual-small"))
+    ok, info = quad.second_order_verdict(dts, rvecs, 1.0)
+    ratios = info["ratios"]
+    if ok is not None:
+        events.append(ev("average/residual-is-second-order-in-dt", ok, float(3.0 / min(ratios)), 1.0, key + "/order", **info))
     sample["ratios"] = ratios
     return {"events": events, "nontrivial": bool(ratios), "sample": sample, "counters": cnt}
 
